@@ -313,6 +313,9 @@ def gen(rng, tier):
         queries.append({"k": "call", "pts": [G.point(rng, dims[0]) for _ in range(3)]})
         if rng.random() < 0.3:
             queries.append({"k": "get", "from": rng.choice(names + ["nosuch"]), "to": "nosuch", "pts": [G.point(rng, 1)]})
+            # near misses: a proper prefix of a real frame name, the empty string
+            near = [n_[:3] for n_ in names if n_[:3] not in names] + [""]
+            queries.append({"k": "get", "from": names[0], "to": rng.choice(near), "pts": [G.point(rng, 1)]})
             queries.append({"k": "get", "from": "ghost", "to": rng.choice(names), "pts": [G.point(rng, 1)], "unknown_obj": True})
         if dims[0] >= 2 and rng.random() < 0.5:
             k = rng.randint(1, dims[0] - 1)
